@@ -31,6 +31,7 @@ func runC10(c *Ctx) {
 	ruleTimeoutSource(c, p, "C10.timeout-source")
 	ruleDialClose(c, p, "C10.dialclose")
 	ruleDialUnderContext(c, p, "C10.dial-ctx")
+	ruleDeadlineKind(c, p, roles, "C10.deadline-kind")
 	ruleNoLeak(c, p, roles, "C10.leak")
 	ruleHandshakeWatchdog(c, p)
 	rulePacketDeadline(c, p, "C10.deadline")
